@@ -145,6 +145,7 @@ func reregOne(c *vf.Ctx, seed int64, batch, iter int, race bool) {
 			}
 		}()
 		gosched(lead)
+		it.shutReq.Store(true)
 		d.ShutdownAndWait()
 		shutRet.Store(tick())
 	}
